@@ -198,6 +198,12 @@ def main():
     #     on a sibling argument in between
     for m_, f_, a_ in firstuse:
         jobs.append({'kind': 'history', 'calls': [{'mod': m_, 'fn': f_, 'args': a_, 'mutate': True}, {'mod': m_, 'fn': f_, 'args': a_, 'mutate': False}]})
+    #     ... and lookups that leave an UNMATCHED remainder (a part without properties): their empty dict must be the caller's own too
+    for m_, f_, a_ in (('at.postleitzahl', 'info', ['0000']), ('imsi', 'split', ['999991234567890']), ('be.iban', 'info', ['BE71 9990 0000 0069']),
+                       ('numdb', 'info:isbn', ['9799999999999']), ('numdb', 'info:oui', ['FFFFFF']), ('cfi', 'info', ['ZZZZZZ']), ('mac', 'get_oui', ['ff:ff:ff:00:00:00'])):
+        jobs.append({'kind': 'history', 'calls': [{'mod': m_, 'fn': f_, 'args': a_, 'mutate': True}, {'mod': m_, 'fn': f_, 'args': a_, 'mutate': False},
+                                                  {'mod': firstuse[2][0], 'fn': firstuse[2][1], 'args': firstuse[2][2], 'mutate': False},
+                                                  {'mod': firstuse[11][0], 'fn': firstuse[11][1], 'args': firstuse[11][2], 'mutate': False}]})
     # (b) sibling arguments: two numbers that share a long prefix but fall into different registry entries (a lookup memoised
     #     under a truncated key answers the second one with the first one's entry); taken from the registry files themselves
     for (m_, f_), pairs in sorted(sibling_arguments().items()):
